@@ -1,0 +1,10 @@
+//go:build verif
+// +build verif
+
+package space
+
+// Verification hooks (build tag `verif`): the three kernel implementations individually, bypassing CPU dispatch. Add-only.
+
+func VerifNative() SpaceImpl { return nativeSpaceImpl{} }
+func VerifAvx() SpaceImpl    { return avxSpaceImpl{} }
+func VerifSse() SpaceImpl    { return sseSpaceImpl{} }
